@@ -8,7 +8,21 @@ Open Scope list_scope.
 Open Scope nat_scope.
 Notation length := List.length.
 
-Ltac len := cbn [length]; rewrite ?app_length; cbn [length]; rewrite ?app_length; cbn [length]; lia.
+(* lia / unfolding of the precedence constants on a context reduced to its arithmetic facts
+   (the boolean and parser hypotheses make zify very slow) *)
+Ltac keep_arith :=
+  repeat match goal with
+         | H : ?T |- _ =>
+           lazymatch T with
+           | (_ < _) => fail
+           | (_ <= _) => fail
+           | (@eq nat _ _) => fail
+           | _ => match type of T with Prop => clear H end
+           end
+         end.
+Ltac cs' := keep_arith; cs.
+Ltac alia := keep_arith; lia.
+Ltac len := keep_arith; cbn [length]; rewrite ?app_length; cbn [length]; rewrite ?app_length; cbn [length]; lia.
 
 Ltac split_and H :=
   repeat match type of H with
@@ -56,12 +70,12 @@ Proof.
     destruct o; cbn [chn nary_prec nary_tok].
     + (* Sum *)
       split_and Hop. apply negb_true_iff in Hop.
-      apply (child_PE a IHa Ha Hta); [cs; lia | intros E; pose proof (top_ge_sum a E); lia | |].
-      * pose proof (redge_sum a). apply follow_tok; [reflexivity|]. cbn [accepts]. apply Nat.ltb_ge. cs. lia.
+      apply (child_PE a IHa Ha Hta); [cs'; lia | intros E; pose proof (top_ge_sum a E); alia | |].
+      * pose proof (redge_sum a). apply follow_tok; [reflexivity|]. cbn [accepts]. apply Nat.ltb_ge. cs'. lia.
       * eapply LP_step; [discriminate | apply postfix_plus with (b := b) (r' := rest) | len | exact HL].
         -- apply Nat.ltb_lt. exact Hp.
-        -- apply (child_PE b IHb Hb Htb); [cs; lia | intros E; pose proof (top_gt_sum b E Hop); lia | |].
-           ++ eapply follow_mono; [|exact Hfo]. pose proof (redge_sum b). cs. lia.
+        -- apply (child_PE b IHb Hb Htb); [cs'; lia | intros E; pose proof (top_gt_sum b E Hop); alia | |].
+           ++ eapply follow_mono; [|exact Hfo]. pose proof (redge_sum b). cs'. lia.
            ++ apply LP_stop. exact Hfo.
         -- assumption.
         -- assumption.
@@ -76,9 +90,9 @@ Proof.
           { destruct a; try discriminate. destruct o; try discriminate; unfold B; cbn [print]; rewrite ltb_0;
               reflexivity. }
           rewrite E. apply forced_paren_PE; auto.
-        - apply (child_PE a IHa Ha Hta); [cs; lia | intros E; pose proof (top_ge_prod a E); cs; lia | | exact HL'].
+        - apply (child_PE a IHa Ha Hta); [cs'; lia | intros E; pose proof (top_ge_prod a E); cs'; lia | | exact HL'].
           eapply follow_mono; [|exact Hfo']. apply redge_nonmult. auto. }
-      apply HPa; [|apply follow_tok; [reflexivity|]; cbn [accepts]; apply Nat.ltb_ge; cs; lia].
+      apply HPa; [|apply follow_tok; [reflexivity|]; cbn [accepts]; apply Nat.ltb_ge; cs'; lia].
       eapply LP_step; [discriminate | apply postfix_times with (b := b) (r' := rest) | len | exact HL].
       * apply Nat.ltb_lt. exact Hp.
       * cbn [chn]. destruct (is_qfr b) eqn:Hq; cbn [paren_if].
@@ -86,28 +100,28 @@ Proof.
            { destruct b; try discriminate. destruct o; try discriminate; unfold B; cbn [print]; rewrite ltb_0;
                reflexivity. }
            rewrite E. apply forced_paren_PE; auto. apply LP_stop. exact Hfo.
-        -- apply (child_PE b IHb Hb Htb); [cs; lia | intros E; pose proof (top_ge_prod b E); cs; lia | |].
-           ++ eapply follow_mono; [|exact Hfo]. pose proof (redge_prod b). cs. lia.
+        -- apply (child_PE b IHb Hb Htb); [cs'; lia | intros E; pose proof (top_ge_prod b E); cs'; lia | |].
+           ++ eapply follow_mono; [|exact Hfo]. pose proof (redge_prod b). cs'. lia.
            ++ apply LP_stop. exact Hfo.
       * assumption.
       * assumption.
     + (* And *)
       apply negb_true_iff in Hop.
-      apply (child_PE a IHa Ha Hta); [cs; lia | intros E; pose proof (top_ge_and a E); lia | |].
-      * pose proof (redge_and a). apply follow_tok; [reflexivity|]. cbn [accepts]. apply Nat.ltb_ge. cs. lia.
+      apply (child_PE a IHa Ha Hta); [cs'; lia | intros E; pose proof (top_ge_and a E); alia | |].
+      * pose proof (redge_and a). apply follow_tok; [reflexivity|]. cbn [accepts]. apply Nat.ltb_ge. cs'. lia.
       * eapply LP_step; [discriminate | apply postfix_and with (b := b) (r' := rest) | len | exact HL].
         -- apply Nat.ltb_lt. exact Hp.
-        -- apply (child_PE b IHb Hb Htb); [cs; lia | intros E; pose proof (top_gt_and b E Hop); lia | |].
-           ++ eapply follow_mono; [|exact Hfo]. pose proof (redge_and b). cs. lia.
+        -- apply (child_PE b IHb Hb Htb); [cs'; lia | intros E; pose proof (top_gt_and b E Hop); alia | |].
+           ++ eapply follow_mono; [|exact Hfo]. pose proof (redge_and b). cs'. lia.
            ++ apply LP_stop. exact Hfo.
     + (* Or *)
       apply negb_true_iff in Hop.
-      apply (child_PE a IHa Ha Hta); [cs; lia | intros E; pose proof (top_ge_or a E); lia | |].
-      * pose proof (redge_or a). apply follow_tok; [reflexivity|]. cbn [accepts]. apply Nat.ltb_ge. cs. lia.
+      apply (child_PE a IHa Ha Hta); [cs'; lia | intros E; pose proof (top_ge_or a E); alia | |].
+      * pose proof (redge_or a). apply follow_tok; [reflexivity|]. cbn [accepts]. apply Nat.ltb_ge. cs'. lia.
       * eapply LP_step; [discriminate | apply postfix_or with (b := b) (r' := rest) | len | exact HL].
         -- apply Nat.ltb_lt. exact Hp.
-        -- apply (child_PE b IHb Hb Htb); [cs; lia | intros E; pose proof (top_gt_or b E Hop); lia | |].
-           ++ eapply follow_mono; [|exact Hfo]. pose proof (redge_or b). cs. lia.
+        -- apply (child_PE b IHb Hb Htb); [cs'; lia | intros E; pose proof (top_gt_or b E Hop); alia | |].
+           ++ eapply follow_mono; [|exact Hfo]. pose proof (redge_or b). cs'. lia.
            ++ apply LP_stop. exact Hfo.
   - (* EBin *)
     cbn [nf] in Hnf.
@@ -125,72 +139,72 @@ Proof.
         { destruct c; try discriminate; [|destruct o0; try discriminate]; unfold B; cbn [print]; rewrite ?ltb_0;
             try reflexivity. destruct o0; try discriminate; reflexivity. }
         rewrite E. apply forced_paren_PE; auto.
-      - apply (child_PE c HB Hc Htc); [cs; lia | | | exact HL'].
-        + intros E. pose proof (top_gt_nonmult c E Hm). lia.
+      - apply (child_PE c HB Hc Htc); [cs'; lia | | | exact HL'].
+        + intros E. pose proof (top_gt_nonmult c E Hm). alia.
         + eapply follow_mono; [|exact Hfo']. apply redge_nonmult. exact Hm. }
     destruct o; cbn [chb bin_prec bin_tok].
     + (* Quotient *)
       split_and Hop.
-      apply (HM e1 IHe1 Ha Hta); [cs; lia | | apply follow_tok; [reflexivity|]; cbn [accepts]; apply Nat.ltb_ge; cs; lia].
+      apply (HM e1 IHe1 Ha Hta); [cs'; lia | | apply follow_tok; [reflexivity|]; cbn [accepts]; apply Nat.ltb_ge; cs'; lia].
       eapply LP_step; [discriminate | apply postfix_over with (b := e2) (r' := rest) | len | exact HL];
         [apply Nat.ltb_lt; exact Hp | | assumption | assumption].
-      apply (HM e2 IHe2 Hb Htb); [cs; lia | apply LP_stop; exact Hfo | eapply follow_mono; [|exact Hfo]; cs; lia].
+      apply (HM e2 IHe2 Hb Htb); [cs'; lia | apply LP_stop; exact Hfo | eapply follow_mono; [|exact Hfo]; cs'; lia].
     + (* FloorDiv *)
       split_and Hop.
-      apply (HM e1 IHe1 Ha Hta); [cs; lia | | apply follow_tok; [reflexivity|]; cbn [accepts]; apply Nat.ltb_ge; cs; lia].
+      apply (HM e1 IHe1 Ha Hta); [cs'; lia | | apply follow_tok; [reflexivity|]; cbn [accepts]; apply Nat.ltb_ge; cs'; lia].
       eapply LP_step; [discriminate | apply postfix_floordiv with (b := e2) (r' := rest) | len | exact HL];
         [apply Nat.ltb_lt; exact Hp | | assumption | assumption].
-      apply (HM e2 IHe2 Hb Htb); [cs; lia | apply LP_stop; exact Hfo | eapply follow_mono; [|exact Hfo]; cs; lia].
+      apply (HM e2 IHe2 Hb Htb); [cs'; lia | apply LP_stop; exact Hfo | eapply follow_mono; [|exact Hfo]; cs'; lia].
     + (* Remainder *)
       split_and Hop.
-      apply (HM e1 IHe1 Ha Hta); [cs; lia | | apply follow_tok; [reflexivity|]; cbn [accepts]; apply Nat.ltb_ge; cs; lia].
+      apply (HM e1 IHe1 Ha Hta); [cs'; lia | | apply follow_tok; [reflexivity|]; cbn [accepts]; apply Nat.ltb_ge; cs'; lia].
       eapply LP_step; [discriminate | apply postfix_mod with (b := e2) (r' := rest) | len | exact HL];
         [apply Nat.ltb_lt; exact Hp | | assumption | assumption].
-      apply (HM e2 IHe2 Hb Htb); [cs; lia | apply LP_stop; exact Hfo | eapply follow_mono; [|exact Hfo]; cs; lia].
+      apply (HM e2 IHe2 Hb Htb); [cs'; lia | apply LP_stop; exact Hfo | eapply follow_mono; [|exact Hfo]; cs'; lia].
     + (* Power *)
       split_and Hop. apply negb_true_iff in Hop.
-      apply (child_PE e1 IHe1 Ha Hta); [cs; lia | intros E; pose proof (top_ge_pow e1 E); cs; lia | |].
+      apply (child_PE e1 IHe1 Ha Hta); [cs'; lia | intros E; pose proof (top_ge_pow e1 E); cs'; lia | |].
       * pose proof (redge_nonpow e1 Hop). apply follow_tok; [reflexivity|]. cbn [accepts].
-        apply Nat.ltb_ge. cs. lia.
+        apply Nat.ltb_ge. cs'. lia.
       * eapply LP_step; [discriminate | apply postfix_pow with (b := e2) (r' := rest) | len | exact HL];
           [apply Nat.ltb_lt; exact Hp | | assumption | assumption].
-        apply (child_PE e2 IHe2 Hb Htb); [cs; lia | intros E; pose proof (top_ge_pow e2 E); cs; lia | |].
-        -- eapply follow_mono; [|exact Hfo]. pose proof (redge_pow e2). cs. lia.
+        apply (child_PE e2 IHe2 Hb Htb); [cs'; lia | intros E; pose proof (top_ge_pow e2 E); cs'; lia | |].
+        -- eapply follow_mono; [|exact Hfo]. pose proof (redge_pow e2). cs'. lia.
         -- apply LP_stop. exact Hfo.
     + (* Comparison *)
       apply negb_true_iff in Hop.
-      apply (child_PE e1 IHe1 Ha Hta); [cs; lia | intros E; pose proof (top_ge_cmp e1 E); lia | |].
-      * pose proof (redge_cmp e1). apply follow_tok; [reflexivity|]. cbn [accepts]. apply Nat.ltb_ge. cs. lia.
+      apply (child_PE e1 IHe1 Ha Hta); [cs'; lia | intros E; pose proof (top_ge_cmp e1 E); alia | |].
+      * pose proof (redge_cmp e1). apply follow_tok; [reflexivity|]. cbn [accepts]. apply Nat.ltb_ge. cs'. lia.
       * eapply LP_step; [discriminate | apply postfix_cmp with (b := e2) (r' := rest) | len | exact HL];
           [apply Nat.ltb_lt; exact Hp | ].
-        apply (child_PE e2 IHe2 Hb Htb); [cs; lia | intros E; pose proof (top_gt_cmp e2 E Hop); lia | |].
-        -- eapply follow_mono; [|exact Hfo]. pose proof (redge_cmp e2). cs. lia.
+        apply (child_PE e2 IHe2 Hb Htb); [cs'; lia | intros E; pose proof (top_gt_cmp e2 E Hop); alia | |].
+        -- eapply follow_mono; [|exact Hfo]. pose proof (redge_cmp e2). cs'. lia.
         -- apply LP_stop. exact Hfo.
   - (* ENot *)
     cbn [nf] in Hnf. apply okc_elim in Hnf as [Ha Hta]. destruct IHe as [IHe _]. specialize (IHe Ha Hta).
     rewrite B_not. cbn [redge0] in Hfo.
     eapply PE_intro; [apply prefix_not with (p := PA_UNARY) (a := e) (r' := rest); [reflexivity|] | len | exact HL].
-    apply (child_PE e IHe Ha Hta); [cs; lia | intros E; apply (top_gt_unary e E) | |].
-    + eapply follow_mono; [|exact Hfo]. pose proof (redge_unary e). cs. lia.
-    + apply LP_stop. eapply follow_mono; [|exact Hfo]. cs. lia.
+    apply (child_PE e IHe Ha Hta); [cs'; lia | intros E; apply (top_gt_unary e E) | |].
+    + eapply follow_mono; [|exact Hfo]. pose proof (redge_unary e). cs'. lia.
+    + apply LP_stop. eapply follow_mono; [|exact Hfo]. cs'. lia.
   - (* EIf *)
     cbn [nf] in Hnf. apply andb_true_iff in Hnf as [Hnf Ho3]. apply andb_true_iff in Hnf as [Ho1 Ho2].
     apply okc_elim in Ho1 as [H1 Ht1]. apply okc_elim in Ho2 as [H2 Ht2]. apply okc_elim in Ho3 as [H3 Ht3].
     destruct IHe1 as [IHe1 _]. destruct IHe2 as [IHe2 _]. destruct IHe3 as [IHe3 _].
     specialize (IHe1 H1 Ht1). specialize (IHe2 H2 Ht2). specialize (IHe3 H3 Ht3).
     rewrite B_if. cbn [top_lvl] in Hp. cbn [redge0] in Hfo.
-    apply (child_PE e2 IHe2 H2 Ht2); [cs; lia | intros E; pose proof (top_ge_or e2 E); cs; lia | |].
-    + pose proof (redge_or e2). apply follow_tok; [reflexivity|]. cbn [accepts]. apply Nat.ltb_ge. cs. lia.
+    apply (child_PE e2 IHe2 H2 Ht2); [cs'; lia | intros E; pose proof (top_ge_or e2 E); cs'; lia | |].
+    + pose proof (redge_or e2). apply follow_tok; [reflexivity|]. cbn [accepts]. apply Nat.ltb_ge. cs'. lia.
     + eapply LP_step; [discriminate
                       | apply postfix_if with (c := e1) (e := e3) (r3 := rest)
                                                (r2 := print [] PR_LOGICAL_OR e3 ++ rest)
                       | len | exact HL].
       * apply Nat.ltb_lt. exact Hp.
       * apply nonempty_app.
-      * apply (child_PE e1 IHe1 H1 Ht1); [cs; lia | intros E; pose proof (top_ge_or e1 E); cs; lia
+      * apply (child_PE e1 IHe1 H1 Ht1); [cs'; lia | intros E; pose proof (top_ge_or e1 E); cs'; lia
                                          | apply follow_else | apply LP_stop; apply follow_else].
-      * apply (child_PE e3 IHe3 H3 Ht3); [cs; lia | intros E; pose proof (top_ge_or e3 E); cs; lia | |].
-        -- eapply follow_mono; [|exact Hfo]. lia.
+      * apply (child_PE e3 IHe3 H3 Ht3); [cs'; lia | intros E; pose proof (top_ge_or e3 E); cs'; lia | |].
+        -- eapply follow_mono; [|exact Hfo]. alia.
         -- apply LP_stop. exact Hfo.
   - (* ECall *)
     cbn [nf] in Hnf.
@@ -198,8 +212,8 @@ Proof.
     apply andb_true_iff in Hnf as [Hnf Hkw]. apply andb_true_iff in Hnf as [Hnf Hargs].
     apply okc_elim in Hnf as [Hf Htf]. destruct IHe as [IHe _]. specialize (IHe Hf Htf).
     rewrite B_call. cbn [top_lvl] in Hp.
-    apply (child_PE e IHe Hf Htf); [cs; lia | intros E; pose proof (top_ge_call e E); lia | |].
-    + pose proof (redge_call e). apply follow_tok; [reflexivity|]. cbn [accepts]. apply Nat.ltb_ge. cs. lia.
+    apply (child_PE e IHe Hf Htf); [cs'; lia | intros E; pose proof (top_ge_call e E); alia | |].
+    + pose proof (redge_call e). apply follow_tok; [reflexivity|]. cbn [accepts]. apply Nat.ltb_ge. cs'. lia.
     + eapply LP_step; [discriminate | apply postfix_call with (args := args) (kw := kw) (r' := rest) | len | exact HL].
       * apply Nat.ltb_lt. exact Hp.
       * apply AL_items; auto.
@@ -214,8 +228,8 @@ Proof.
     apply okc_elim in Hoa as [Ha Hta]. destruct IHe1 as [IHe1 _]. destruct IHe2 as [IHe2 IHe2t].
     specialize (IHe1 Ha Hta).
     rewrite B_sub. cbn [top_lvl] in Hp.
-    apply (child_PE e1 IHe1 Ha Hta); [cs; lia | intros E; pose proof (top_ge_call e1 E); lia | |].
-    + pose proof (redge_call e1). apply follow_tok; [reflexivity|]. cbn [accepts]. apply Nat.ltb_ge. cs. lia.
+    apply (child_PE e1 IHe1 Ha Hta); [cs'; lia | intros E; pose proof (top_ge_call e1 E); alia | |].
+    + pose proof (redge_call e1). apply follow_tok; [reflexivity|]. cbn [accepts]. apply Nat.ltb_ge. cs'. lia.
     + eapply LP_step; [discriminate | apply postfix_sub with (i := e2) (r2 := rest) | len | exact HL].
       * apply Nat.ltb_lt. exact Hp.
       * apply nonempty_app.
@@ -235,15 +249,15 @@ Proof.
            rewrite join_cons. fold (arg_tail (i2 :: l)). rewrite arg_tail_cons, <- app_assoc.
            cbn [app]. rewrite <- app_assoc.
            apply (child_PE i1 (IH1 Hn1 Hti1) Hn1 Hti1);
-             [cs; lia | intros _; pose proof (top_lvl_min i1); cs; lia | |].
+             [cs'; lia | intros _; pose proof (top_lvl_min i1); cs'; lia | |].
            ++ pose proof (redge_nonif i1 Hnif1). apply follow_tok; [reflexivity|]. cbn [accepts].
-              apply Nat.ltb_ge. cs. lia.
+              apply Nat.ltb_ge. cs'. lia.
            ++ eapply LP_step with (l' := ETuple [i1; i2]) (ts' := arg_tail l ++ TRBrk :: rest).
               ** discriminate.
               ** intros f Hf.
                  rewrite (postfix_comma 0 i1 false _ i2 (arg_tail l ++ TRBrk :: rest)); auto.
                  --- destruct i1; try reflexivity. discriminate.
-                 --- apply head_of_start. apply (start_print i2 Hn2 Hti2); try (cs; lia).
+                 --- apply head_of_start. apply (start_print i2 Hn2 Hti2); try (cs'; lia).
                      destruct l; cbn; exact I.
                  --- apply item_PE; auto. apply item_next_tail; [|exact I].
                      destruct l as [|i3 l]; [left; reflexivity|right].
@@ -259,7 +273,7 @@ Proof.
         -- assert (Hn2 : nf e2 = true) by (destruct e2; try discriminate; exact Hi).
            replace (idx_toks e2) with (print [] PR_NONE e2) by (destruct e2; try reflexivity; discriminate).
            apply (child_PE e2 (IHe2 Hn2 Hte) Hn2 Hte);
-             [cs; lia | intros _; pose proof (top_lvl_min e2); cs; lia | apply follow_rbrk
+             [cs'; lia | intros _; pose proof (top_lvl_min e2); cs'; lia | apply follow_rbrk
               | apply LP_stop; apply follow_rbrk].
   - (* ETuple *) discriminate.
   - injection El as <-. eapply Forall_impl; [|exact H]. intros c [Hc _]. exact Hc.
